@@ -80,7 +80,17 @@ def main():
             os.remove(f"{wt}/{demo_dest}")
         rcb, outb = sh("go build ./... && go test -vet=off -count=1 -run '^$' ./... 2>&1 | grep -v '^ok\\|no test files' | head -20", wt)
         res["builds"] = rcb == 0 and "FAIL" not in outb and "cannot" not in outb
-        failed, only_known, outf = suite(wt, f"{prop}-{m}")
+        if benign and "--full" not in sys.argv:
+            # light confirmation: the producing agent ran the full suite; re-run
+            # the tests of the packages the edit touches
+            pk = sorted({"./" + os.path.dirname(l[6:].strip()) for l in patch.splitlines() if l.startswith("+++ b/")})
+            rct, outt = sh("go test -vet=off -count=1 " + " ".join(pk) + " 2>&1 | grep -- '^--- FAIL\\|^FAIL\\|^panic' | head -20", wt)
+            failed = sorted({l.split()[2] for l in outt.splitlines() if l.startswith("--- FAIL: ")})
+            only_known = set(failed) <= KNOWN_FAIL and "panic" not in outt
+            res["suite_scope"] = "packages touched: " + " ".join(pk)
+        else:
+            failed, only_known, outf = suite(wt, f"{prop}-{m}")
+            res["suite_scope"] = "full"
         res["suite_failed_tests"], res["suite_only_known_failures"] = failed, only_known
         ok = res["applies"] and not res["touches_tests"] and res["builds"] and only_known
         if not benign:
@@ -93,7 +103,7 @@ def main():
             shutil.copy(f"{src}/patch.diff", f"{dst}/patch.diff")
             out_meta = {"property": prop, "round": 2, "summary": meta.get("summary"), "files_changed": meta.get("files_changed"),
                         "confirmed_by_builder": {"at": res["verified_at"], "suite_failed_tests": failed,
-                                                 "ran": ["git apply --check", "go build ./... && compile all tests", "full pinned suite: only the 4 baseline failures"]}}
+                                                 "ran": ["git apply --check", "go build ./... && compile all tests", "tests (" + res["suite_scope"] + "): only baseline failures"]}}
             if benign:
                 out_meta["kind"] = "benign"
                 out_meta["why_preserving"] = meta.get("why_preserving")
